@@ -323,6 +323,9 @@ void Search::iter_search()
 
         if (elapsed >= 3 * (_search_time / 4)) break;
     }
+
+    // no iteration was completed (stopped or out of time at once): still answer with a root move
+    if (_best_move == NO_MOVE && !_root_moves.empty()) _best_move = _root_moves.front();
 }
 
 Value Search::search(Position& position, Depth depth, Value alpha, Value beta,
